@@ -160,6 +160,9 @@ func init() {
 	const raymond = "github.com/aymerick/raymond"
 	intrinsics[raymond+".RegisterPartials"] = func(fr *frame, args []value) value {
 		i := fr.i
+		if i.path.realLibs["raymond"] {
+			return callBody(i, fr.caller, fr, fr.fn, args, nil)
+		}
 		m := args[0].(*symMap)
 		var entries []string
 		if m != nil {
@@ -176,6 +179,9 @@ func init() {
 		return nil
 	}
 	intrinsics[raymond+".RemoveAllPartials"] = func(fr *frame, args []value) value {
+		if fr.i.path.realLibs["raymond"] {
+			return callBody(fr.i, fr.caller, fr, fr.fn, args, nil)
+		}
 		fr.i.envst.log = append(fr.i.envst.log, "raymond.RemoveAllPartials")
 		return nil
 	}
@@ -198,6 +204,10 @@ func init() {
 		}
 		i.envst.log = append(i.envst.log, "gast.NewFileVersion")
 		return tuple{v, iface{}}
+	}
+	// func Getwd() (string, error): a fixed working directory of the stand-in file system
+	intrinsics["os.Getwd"] = func(fr *frame, args []value) value {
+		return tuple{"/work", iface{}}
 	}
 	// func Stat(name string) (FileInfo, error): the file system is environment; the stand-in is an empty one - every
 	// path is reported as not existing (*fs.PathError wrapping ENOENT)
